@@ -156,7 +156,7 @@ def _compare(acc, case, eng, ref, query, k, res, expected, outcome=True):
     fclass, detail = bad
     key = "%s/levenshtein/%s" % (eng, fclass)
     rcase, rexp, robs = case, sorted(expected)[:20], digest(res)
-    if fclass in ("missing", "spurious", "wrong-d") and case[0] in ("uu",):
+    if fclass in ("missing", "spurious", "wrong-d") and case[0] in ("uu",) and eng not in SAME:     # a same-object case cannot be cut to one (query, ref) pair
         # shrink to the single offending (query, ref) pair, keeping numerically equal positions when that is the point
         qi, ri = detail[0], detail[1]
         for red_ref, red_q in ([(ref[ri],), (query[qi],)], [tuple(ref[:ri + 1]), tuple(query[:qi + 1])]):
